@@ -56,6 +56,9 @@ func main() {
 	if len(os.Args) < 2 {
 		usage()
 	}
+	if os.Args[1] == "--crash-report" && len(os.Args) == 6 {
+		os.Exit(crashReport(os.Args[2], os.Args[3], os.Args[4], os.Args[5]))
+	}
 	id := os.Args[1]
 	def, ok := checks[id]
 	if !ok {
@@ -91,6 +94,7 @@ func main() {
 	if replay != "" {
 		os.Exit(doReplay(id, def, replay))
 	}
+	inflightInit()
 	r := newRun(id, tier)
 	r.Level = "model_checking"
 	replayRegress(id, def, r)
@@ -106,12 +110,21 @@ func doReplay(id string, def checkDef, file string) int {
 		return 2
 	}
 	var v struct {
-		Case Case   `json:"case"`
-		Sig  string `json:"sig"`
+		Case  Case   `json:"case"`
+		Sig   string `json:"sig"`
+		Crash bool   `json:"crash"`
 	}
 	if err := json.Unmarshal(b, &v); err != nil {
 		fmt.Fprintln(os.Stderr, err)
 		return 2
+	}
+	if v.Crash {
+		// a process death has no single-case replay: the whole check is run again
+		inflightInit()
+		r := newRun(id, "quick")
+		r.Level = "model_checking"
+		def.run(r)
+		return r.Finish()
 	}
 	if def.replay == nil {
 		fmt.Fprintln(os.Stderr, "no replay function for", id)
